@@ -11,6 +11,7 @@ import (
 	"math/big"
 	"os"
 	"path"
+	"sort"
 	"sync"
 	"time"
 
@@ -45,6 +46,9 @@ type Config struct {
 	GovBalance  *big.Int         // balance of the governance EOA
 	Revision    int              // 0 = basic.MaxRevision
 	Concurrency int              // ConcurrencyLevel of the chain (0/1 = sequential)
+	// ExtraAccounts are further genesis accounts (address string -> balance),
+	// e.g. the address a harness system SCORE will be installed at.
+	ExtraAccounts map[string]*big.Int
 	// Setup, if set, is executed as block 1 by a harness transaction (for
 	// installing harness system SCOREs).
 	Setup func(cc contract.CallContext, txID []byte) error
@@ -123,6 +127,16 @@ func genesisJSON(cfg *Config, gov module.Wallet, ws []module.Wallet) ([]byte, er
 	}
 	for i, w := range ws {
 		accts = append(accts, acct{fmt.Sprintf("eoa%d", i), w.Address().String(), hexBig(cfg.Balances[i])})
+	}
+	{
+		var addrs []string
+		for a := range cfg.ExtraAccounts {
+			addrs = append(addrs, a)
+		}
+		sort.Strings(addrs)
+		for i, a := range addrs {
+			accts = append(accts, acct{fmt.Sprintf("extra%d", i), a, hexBig(cfg.ExtraAccounts[a])})
+		}
 	}
 	rev := cfg.Revision
 	if rev == 0 {
@@ -514,4 +528,23 @@ func SignedTx(sp TxSpec) (transaction.Transaction, error) {
 		return nil, err
 	}
 	return tx, nil
+}
+
+// CompactJSONLen is the number of bytes of the compact JSON form of v (what
+// input step costing counts for a data field built from v).
+func CompactJSONLen(v interface{}) (int, error) {
+	b, err := json.Marshal(v)
+	if err != nil {
+		return 0, err
+	}
+	return len(b), nil
+}
+
+// JSONString renders v as JSON for witnesses and journals.
+func JSONString(v interface{}) string {
+	b, err := json.Marshal(v)
+	if err != nil {
+		return fmt.Sprint(v)
+	}
+	return string(b)
 }
